@@ -2,7 +2,11 @@
    Property theorems only; proofs in Life/RunMapProofs.v (invariants, by induction over arbitrary
    action lists = every interleaving) and Life/Witness.v (refutations by computation).
    "_refuted": the faithful model of the code as it stands violates the statement; the witness is
-   replayed against the real service by the harness (corpus/C11). *)
+   replayed against the real service by the harness (corpus/C11).
+   "_shipped_refuted": the model of the code AS IT WAS FOUND ([shipped]) violates the statement; the defect has
+   been repaired since (the commit is named), the model used by the checks is the repaired variant
+   ([repaired], cfg_v1 / cfg_v2), for which the positive "_partial" theorems below are proved; reverting the
+   commit makes the harness report the finding again. *)
 From Verif Require Import Life.RunMap Life.RunMapProofs Life.Witness.
 
 (* ---------------- at_most_one_live_run (both engines, every configuration) ---------------- *)
@@ -149,6 +153,83 @@ Example C11_nonvacuous_polite :
     (start_v1 0 ++ [AOpen 0] ++ fail_v1 0 CaTransient ++ clean 0 10 ++ [AOpen 1; ACall KStop 1] ++ user 4
      ++ [ATd 1; AEnd 1] ++ clean 1 4).
 Proof. vm_compute. repeat split; try exact I; intros; discriminate. Qed.
+
+(* ================================================================================================
+   The arch-v2 engine, REPAIRED (838f9f1 compare-and-delete, 7f15ba5 / 6946e0c failed opens release what they
+   took), satisfies the same statements for every polite interleaving.  Proof: inductive invariant
+   Life/RunMapInvV2.v (Inv2).  The shipped variant is refuted above (blind delete, leaking opens); without
+   [polite] both engines are still refuted (Start admitted while Recovering, open finding). *)
+From Verif Require Import Life.RunMapInvV2.
+
+Theorem C11_running_implies_map_is_live_v2_partial : forall c acts s,
+  v2_repaired c -> polite_run c init acts -> run_acts c init acts = Some s ->
+  s_status s = Running ->
+  exists r, s_map s = Some r /\ s_cur s = Some r /\ alive (s_runs s r).
+Proof.
+  intros c acts s Hc Hp Hr. apply running_implies_map_is_live_inv2.
+  exact (run_Inv2 c acts Hc init s Inv2_init Hp Hr).
+Qed.
+Print Assumptions C11_running_implies_map_is_live_v2_partial.
+
+Theorem C11_wait_returns_that_runs_result_v2_partial : forall c acts s,
+  v2_repaired c -> polite_run c init acts -> run_acts c init acts = Some s ->
+  (s_status s = Running -> exists r, s_map s = Some r /\ s_cur s = Some r /\ alive (s_runs s r))
+  /\ (forall id r s' l, get_wait (s_waits s) id = Some (WJoin r) -> waiter_step s id = Some (s', l) ->
+        exists x, r_res (s_runs s r) = Some x /\ r < s_next s /\ l = LTau).
+Proof.
+  intros c acts s Hc Hp Hr. split.
+  - apply running_implies_map_is_live_inv2. exact (run_Inv2 c acts Hc init s Inv2_init Hp Hr).
+  - intros id r s' l. apply wait_returns_joined_result.
+Qed.
+Print Assumptions C11_wait_returns_that_runs_result_v2_partial.
+
+Theorem C11_status_agrees_with_last_run_end_v2_partial : forall c acts s,
+  v2_repaired c -> polite_run c init acts -> run_acts c init acts = Some s ->
+  quiescent s = true -> agrees s = true.
+Proof.
+  intros c acts s Hc Hp Hr. apply status_agrees_inv2. exact (run_Inv2 c acts Hc init s Inv2_init Hp Hr).
+Qed.
+Print Assumptions C11_status_agrees_with_last_run_end_v2_partial.
+
+Theorem C11_teardown_releases_guards_v2_partial : forall c acts s,
+  v2_repaired c -> polite_run c init acts -> run_acts c init acts = Some s ->
+  quiescent s = true -> live_runs s = [] -> guards_free s = true.
+Proof.
+  intros c acts s Hc Hp Hr.
+  destruct (run_Inv2_GG c acts Hc init s Inv2_init G_init GG_init Hp Hr) as [HI HG].
+  apply guards_released_inv2; assumption.
+Qed.
+Print Assumptions C11_teardown_releases_guards_v2_partial.
+
+(* non-vacuity: the configuration the checks use is a repaired v2 configuration; a polite v2 interleaving
+   (start, fail, recover, restart, stop) ends quiescent; the schedules that refuted the shipped variant
+   now end in agreement *)
+Example C11_v2_repaired_cfg : v2_repaired (cfg_v2 true) /\ v2_repaired (cfg_v2 false).
+Proof. split; constructor; reflexivity. Qed.
+
+Definition nv_acts_v2 : list act :=
+  start_v2 0 ++ fail_v1 0 CaTransient ++ clean 0 12 ++ [ACall KStop 1] ++ user 4 ++ [AEnd 1] ++ clean 1 4.
+
+Example C11_nonvacuous_v2 :
+  match run_acts (cfg_v2 true) init nv_acts_v2 with
+  | Some s => quiescent s && agrees s && guards_free s && status_eqb (s_status s) UserStopped
+  | None => false
+  end = true.
+Proof. vm_compute. reflexivity. Qed.
+
+Example C11_nonvacuous_polite_v2 : polite_run (cfg_v2 true) init nv_acts_v2.
+Proof. vm_compute. repeat split; try exact I; intros; discriminate. Qed.
+
+Example C11_shipped_witnesses_repaired_v2 :
+  (match final (cfg_v2 true) w_blind_delete_v2 with
+   | Some s => quiescent s && status_eqb (s_status s) Running && onat_eqb (s_map s) (Some 1) && running_map_ok s && agrees s
+   | None => false
+   end = true)
+  /\ (match final (cfg_v2 true) w_proc_open_leak_v2 with
+      | Some s => quiescent s && match live_runs s with [] => true | _ => false end && guards_free s
+      | None => false
+      end = true).
+Proof. exact (conj blind_delete_repaired_v2 proc_open_fail_repaired_v2). Qed.
 
 (* ================================================================================================
    Tie between the theorems and the observed behaviour: the trace acceptor is sound. Every event log of
